@@ -381,13 +381,6 @@ theorem closestPointsHalfspaceSupportMap_spec (S2 : V3 K → Prop) (supp : Iso3 
 def CubAt (he : V3 K) (p : V3 K) : Prop :=
   (-he.x ≤ p.x ∧ p.x ≤ he.x) ∧ (-he.y ≤ p.y ∧ p.y ≤ he.y) ∧ (-he.z ≤ p.z ∧ p.z ≤ he.z)
 
-private theorem cs_axis (h d y : K) (hh : 0 ≤ h) (h1 : -h ≤ y) (h2 : y ≤ h) :
-    d * y ≤ d * (if d < 0 then -|h| else |h|) := by
-  rw [abs_of_nonneg hh]
-  split_ifs with hd
-  · nlinarith
-  · push Not at hd; nlinarith
-
 /-- **The cuboid support map honours the C10 contract** (every direction, unit quaternion, half-extents `≥ 0`):
 `Cuboid::support_point(pos12, dir)` is a point of the placed box maximising `dir·x` over it. -/
 theorem cuboidSupport_supports (he : V3 K) (pos12 : Iso3 K) (dir : V3 K)
@@ -502,5 +495,297 @@ theorem ballSupport_supports (hs : LawfulSqrt sq) (r : K) (pos12 : Iso3 K) (dir 
 (half-extents `≥ 0`) and the exact unit quaternion `(1/2, 1/2, 1/2, 1/2)` satisfy every side condition. -/
 example : ((3/5 : ℚ) * (3/5) + (4/5) * (4/5) + 0 * 0 = 1) ∧ ((0:ℚ) ≤ 1 ∧ (0:ℚ) ≤ 2 ∧ (0:ℚ) ≤ 1/2) ∧
     ((1/2 : ℚ) * (1/2) + (1/2) * (1/2) + (1/2) * (1/2) + (1/2) * (1/2) = 1) := by norm_num
+
+/-! ## 4. SAT lower bound for cuboids -/
+
+/-- `d·y ≤ d·support(d)` for the cuboid local support point (half-extents `≥ 0`) -/
+private theorem cuboid_local_support_max (he d y : V3 K) (hhe : 0 ≤ he.x ∧ 0 ≤ he.y ∧ 0 ≤ he.z) (hy : CubAt he y) :
+    letI := fieldBits K
+    d.x * y.x + d.y * y.y + d.z * y.z ≤
+      d.x * (cuboidLocalSupport he d).x + d.y * (cuboidLocalSupport he d).y + d.z * (cuboidLocalSupport he d).z := by
+  obtain ⟨hx, hy', hz⟩ := hhe
+  obtain ⟨⟨a1, a2⟩, ⟨b1, b2⟩, c1, c2⟩ := hy
+  have k1 := cs_axis he.x d.x y.x hx a1 a2
+  have k2 := cs_axis he.y d.y y.y hy' b1 b2
+  have k3 := cs_axis he.z d.z y.z hz c1 c2
+  simp only [cuboidLocalSupport, copysign]
+  linarith
+
+/-- the invariant carried by the SAT loops: a positive best separation is a lower bound of the distance between any
+point `x` of cuboid 1 and any point `pos12·y` of cuboid 2 -/
+def SatInv (he1 he2 : V3 K) (pos12 : Iso3 K) (best : K × V3 K) : Prop :=
+  0 < best.1 → ∀ x y, CubAt he1 x → CubAt he2 y →
+    best.1 * best.1 ≤ @V3.normSq K (fieldNum K sq) (@V3.sub K (fieldNum K sq) (@Iso3.act K (fieldNum K sq) pos12 y) x)
+
+private theorem sign_cases (t : K) : (if t < 0 then -|(1:K)| else |(1:K)|) = 1 ∨ (if t < 0 then -|(1:K)| else |(1:K)|) = -1 := by
+  split_ifs <;> simp
+
+/-- separation along a signed direction `a` (`|a|² ≤ 1`): if every pair satisfies `s ≤ a·(w - x)` with `s > 0`
+then `s² ≤ |w - x|²` -/
+private theorem sep_dir (a w x : V3 K) (s : K) (hs : 0 < s) (ha : a.x * a.x + a.y * a.y + a.z * a.z ≤ 1)
+    (h : s ≤ a.x * (w.x - x.x) + a.y * (w.y - x.y) + a.z * (w.z - x.z)) :
+    s * s ≤ (w.x - x.x) * (w.x - x.x) + (w.y - x.y) * (w.y - x.y) + (w.z - x.z) * (w.z - x.z) := by
+  have hcs := cs3 a ⟨w.x - x.x, w.y - x.y, w.z - x.z⟩
+  simp only [dot3] at hcs
+  have h2 : s ^ 2 ≤ (a.x * (w.x - x.x) + a.y * (w.y - x.y) + a.z * (w.z - x.z)) ^ 2 := pow_le_pow_left₀ hs.le h 2
+  have e0 : 0 ≤ (w.x - x.x) * (w.x - x.x) + (w.y - x.y) * (w.y - x.y) + (w.z - x.z) * (w.z - x.z) := by
+    nlinarith [mul_self_nonneg (w.x - x.x), mul_self_nonneg (w.y - x.y), mul_self_nonneg (w.z - x.z)]
+  nlinarith [mul_le_mul_of_nonneg_right ha e0]
+
+/-- one step of `cuboid_cuboid_find_local_separating_normal_oneway` preserves the invariant -/
+theorem satOnewayStep_inv (he1 he2 : V3 K) (pos12 : Iso3 K) (best : K × V3 K) (i : Nat)
+    (h2 : 0 ≤ he2.x ∧ 0 ≤ he2.y ∧ 0 ≤ he2.z) :
+    letI := fieldNum K sq
+    letI := fieldBits K
+    SatInv sq he1 he2 pos12 best → SatInv sq he1 he2 pos12 (satOnewayStep he1 he2 pos12 best i) := by
+  intro hinv
+  dsimp only [satOnewayStep]
+  split_ifs with hlt
+  · intro hpos x y hx hy
+    simp only at hpos ⊢
+    -- the support point of cuboid 2 toward `axis2 = Rᵀ(-axis1)` minimises `axis1·(pos12·y)`
+    have hmax := cuboid_local_support_max he2
+      (@Iso3.invRot K (fieldNum K sq) pos12 (@V3.neg K (fieldNum K sq) (@ith3 K (fieldNum K sq) i (@copysign K (fieldBits K) 1 (@V3.get K pos12.t i))))) y h2 hy
+    have adj1 := rot_adj3 sq pos12 y (@V3.neg K (fieldNum K sq) (@ith3 K (fieldNum K sq) i (@copysign K (fieldBits K) 1 (@V3.get K pos12.t i))))
+    have adj2 := rot_adj3 sq pos12 (@cuboidLocalSupport K (fieldBits K) he2
+      (@Iso3.invRot K (fieldNum K sq) pos12 (@V3.neg K (fieldNum K sq) (@ith3 K (fieldNum K sq) i (@copysign K (fieldBits K) 1 (@V3.get K pos12.t i))))))
+      (@V3.neg K (fieldNum K sq) (@ith3 K (fieldNum K sq) i (@copysign K (fieldBits K) 1 (@V3.get K pos12.t i))))
+    obtain ⟨⟨a1, a2⟩, ⟨b1, b2⟩, c1, c2⟩ := hx
+    have hsg := sign_cases (@V3.get K pos12.t i)
+    simp only [copysign] at hmax adj1 adj2 hpos ⊢
+    generalize (if @V3.get K pos12.t i < 0 then -|(1:K)| else |(1:K)|) = sg at *
+    generalize @Iso3.invRot K (fieldNum K sq) pos12 (@V3.neg K (fieldNum K sq) (@ith3 K (fieldNum K sq) i sg)) = d' at *
+    generalize @cuboidLocalSupport K (fieldBits K) he2 d' = ls at *
+    simp only [Iso3.act, V3.add, V3.sub, V3.dot, V3.normSq, V3.neg] at adj1 adj2 hpos ⊢
+    generalize @Iso3.rot K (fieldNum K sq) pos12 y = ry at *
+    generalize @Iso3.rot K (fieldNum K sq) pos12 ls = rl at *
+    by_cases i0 : i = 0
+    · subst i0
+      simp only [ith3, V3.set, V3.zero, V3.get, if_true] at adj1 adj2 hpos ⊢
+      apply sep_dir ⟨sg, 0, 0⟩ ⟨ry.x + pos12.t.x, ry.y + pos12.t.y, ry.z + pos12.t.z⟩ x _ hpos
+      · rcases hsg with h | h <;> rw [h] <;> norm_num
+      · simp only []
+        rcases hsg with h | h <;> rw [h] at adj1 adj2 ⊢ <;> nlinarith
+    · by_cases i1 : i = 1
+      · subst i1
+        simp only [ith3, V3.set, V3.zero, V3.get, if_true, if_false, one_ne_zero] at adj1 adj2 hpos ⊢
+        apply sep_dir ⟨0, sg, 0⟩ ⟨ry.x + pos12.t.x, ry.y + pos12.t.y, ry.z + pos12.t.z⟩ x _ hpos
+        · rcases hsg with h | h <;> rw [h] <;> norm_num
+        · simp only []
+          rcases hsg with h | h <;> rw [h] at adj1 adj2 ⊢ <;> nlinarith
+      · simp only [ith3, V3.set, V3.zero, V3.get, if_neg i0, if_neg i1] at adj1 adj2 hpos ⊢
+        apply sep_dir ⟨0, 0, sg⟩ ⟨ry.x + pos12.t.x, ry.y + pos12.t.y, ry.z + pos12.t.z⟩ x _ hpos
+        · rcases hsg with h | h <;> rw [h] <;> norm_num
+        · simp only []
+          rcases hsg with h | h <;> rw [h] at adj1 adj2 ⊢ <;> nlinarith
+  · exact hinv
+
+theorem realMax_nonneg : (0 : K) ≤ @realMax K (fieldNum K sq) := by
+  simp only [realMax, fieldNum_lit]
+  have : (0 : ℚ) ≤ mkRat 179769313486231570814527423731704356798070567525844996598917476803157260780028538760589558632766878171540458953514382464234321326889464182768467546703537516986049910576551282076245490090389328944075868508455133942304583236903222948165808559332123348274797826204144723168738177180919299881250404026184124858368 1 := by
+    rw [Rat.mkRat_eq_div]; positivity
+  exact_mod_cast this
+
+/-- **SAT lower bound (face normals of cuboid 1).** Whatever the pose (no unit-quaternion hypothesis is needed for
+this direction), if `cuboid_cuboid_find_local_separating_normal_oneway` returns a positive separation `s`, then every
+point `x` of cuboid 1 and every point `pos12·y` of cuboid 2 are at least `s` apart: `s² ≤ |pos12·y - x|²`. In particular
+a positive value proves the cuboids disjoint; the SAT value never exceeds the true separation. -/
+theorem satCuboidCuboidOneway_lower (he1 he2 : V3 K) (pos12 : Iso3 K)
+    (h2 : 0 ≤ he2.x ∧ 0 ≤ he2.y ∧ 0 ≤ he2.z) :
+    letI := fieldNum K sq
+    letI := fieldBits K
+    0 < (satCuboidCuboidOneway he1 he2 pos12).1 →
+    ∀ x y, CubAt he1 x → CubAt he2 y →
+      (satCuboidCuboidOneway he1 he2 pos12).1 * (satCuboidCuboidOneway he1 he2 pos12).1 ≤ ((pos12.act y).sub x).normSq := by
+  have h0 : SatInv sq he1 he2 pos12 (-(@realMax K (fieldNum K sq)), @V3.zero K (fieldNum K sq)) := by
+    intro hpos
+    have := realMax_nonneg (K := K) sq
+    simp only at hpos
+    linarith
+  have s0 := satOnewayStep_inv sq he1 he2 pos12 _ 0 h2 h0
+  have s1 := satOnewayStep_inv sq he1 he2 pos12 _ 1 h2 s0
+  have s2 := satOnewayStep_inv sq he1 he2 pos12 _ 2 h2 s1
+  exact s2
+
+/-- **value > 0 ⇒ disjoint**: a positive SAT separation excludes any common point. -/
+theorem satCuboidCuboidOneway_disjoint (he1 he2 : V3 K) (pos12 : Iso3 K)
+    (h2 : 0 ≤ he2.x ∧ 0 ≤ he2.y ∧ 0 ≤ he2.z) :
+    letI := fieldNum K sq
+    letI := fieldBits K
+    0 < (satCuboidCuboidOneway he1 he2 pos12).1 →
+    ∀ x y, CubAt he1 x → CubAt he2 y → pos12.act y ≠ x := by
+  intro hpos x y hx hy heq
+  have h := satCuboidCuboidOneway_lower sq he1 he2 pos12 h2 hpos x y hx hy
+  rw [heq] at h
+  simp only [V3.sub, V3.normSq, V3.dot] at h
+  nlinarith [mul_pos hpos hpos]
+
+/-- `cuboid_cuboid_compute_separation_wrt_local_line` along any axis of length `≤ 1`: a positive value is a lower
+bound of the distance between the cuboids. -/
+theorem satSeparationWrtLine_lower (he1 he2 : V3 K) (pos12 : Iso3 K) (axis : V3 K)
+    (h1 : 0 ≤ he1.x ∧ 0 ≤ he1.y ∧ 0 ≤ he1.z) (h2 : 0 ≤ he2.x ∧ 0 ≤ he2.y ∧ 0 ≤ he2.z)
+    (ha : axis.x * axis.x + axis.y * axis.y + axis.z * axis.z ≤ 1) :
+    letI := fieldNum K sq
+    letI := fieldBits K
+    SatInv sq he1 he2 pos12 (satSeparationWrtLine he1 he2 pos12 axis) := by
+  intro hpos x y hx hy
+  dsimp only [satSeparationWrtLine] at hpos ⊢
+  have hsg := sign_cases (@V3.dot K (fieldNum K sq) pos12.t axis)
+  simp only [copysign] at hpos ⊢
+  generalize (if @V3.dot K (fieldNum K sq) pos12.t axis < 0 then -|(1:K)| else |(1:K)|) = sg at *
+  have hmax2 := cuboid_local_support_max he2
+    (@Iso3.invRot K (fieldNum K sq) pos12 (@V3.neg K (fieldNum K sq) (@V3.smul K (fieldNum K sq) axis sg))) y h2 hy
+  have hmax1 := cuboid_local_support_max he1 (@V3.smul K (fieldNum K sq) axis sg) x h1 hx
+  have adj1 := rot_adj3 sq pos12 y (@V3.neg K (fieldNum K sq) (@V3.smul K (fieldNum K sq) axis sg))
+  have adj2 := rot_adj3 sq pos12 (@cuboidLocalSupport K (fieldBits K) he2
+    (@Iso3.invRot K (fieldNum K sq) pos12 (@V3.neg K (fieldNum K sq) (@V3.smul K (fieldNum K sq) axis sg))))
+    (@V3.neg K (fieldNum K sq) (@V3.smul K (fieldNum K sq) axis sg))
+  generalize @Iso3.invRot K (fieldNum K sq) pos12 (@V3.neg K (fieldNum K sq) (@V3.smul K (fieldNum K sq) axis sg)) = d' at *
+  generalize @cuboidLocalSupport K (fieldBits K) he2 d' = ls2 at *
+  generalize @cuboidLocalSupport K (fieldBits K) he1 (@V3.smul K (fieldNum K sq) axis sg) = ls1 at *
+  simp only [Iso3.act, V3.add, V3.sub, V3.dot, V3.normSq, V3.neg, V3.smul] at adj1 adj2 hpos hmax1 ⊢
+  generalize @Iso3.rot K (fieldNum K sq) pos12 y = ry at *
+  generalize @Iso3.rot K (fieldNum K sq) pos12 ls2 = rl at *
+  apply sep_dir ⟨axis.x * sg, axis.y * sg, axis.z * sg⟩ ⟨ry.x + pos12.t.x, ry.y + pos12.t.y, ry.z + pos12.t.z⟩ x _ hpos
+  · rcases hsg with h | h <;> rw [h] <;> simp only [] <;> nlinarith
+  · simp only []
+    nlinarith
+
+/-- an invariant preserved by every step is preserved by a left fold -/
+private theorem foldl_inv {α β : Type} (P : β → Prop) (f : β → α → β) (l : List α) (b : β)
+    (hb : P b) (hstep : ∀ b a, P b → P (f b a)) : P (l.foldl f b) := by
+  induction l generalizing b with
+  | nil => exact hb
+  | cons a l ih => exact ih _ (hstep b a hb)
+
+/-- **SAT lower bound (edge × edge axes).** If `cuboid_cuboid_find_local_separating_edge_twoway` returns a positive
+separation `s`, every point of cuboid 1 and every point `pos12·y` of cuboid 2 are at least `s` apart. -/
+theorem satCuboidCuboidEdgeTwoway_lower (hs : LawfulSqrt sq) (he1 he2 : V3 K) (pos12 : Iso3 K)
+    (h1 : 0 ≤ he1.x ∧ 0 ≤ he1.y ∧ 0 ≤ he1.z) (h2 : 0 ≤ he2.x ∧ 0 ≤ he2.y ∧ 0 ≤ he2.z) :
+    letI := fieldNum K sq
+    letI := fieldBits K
+    0 < (satCuboidCuboidEdgeTwoway he1 he2 pos12).1 →
+    ∀ x y, CubAt he1 x → CubAt he2 y →
+      (satCuboidCuboidEdgeTwoway he1 he2 pos12).1 * (satCuboidCuboidEdgeTwoway he1 he2 pos12).1
+        ≤ ((pos12.act y).sub x).normSq := by
+  have h0 : SatInv sq he1 he2 pos12 (-(@realMax K (fieldNum K sq)), @V3.zero K (fieldNum K sq)) := by
+    intro hpos
+    have := realMax_nonneg (K := K) sq
+    simp only at hpos
+    linarith
+  dsimp only [satCuboidCuboidEdgeTwoway]
+  apply foldl_inv (SatInv sq he1 he2 pos12) _ _ _ h0
+  intro b a hb
+  split_ifs with hn hlt
+  · -- the normalised axis has length one
+    simp only [V3.norm, V3.normSq, V3.dot, fieldNum_sqrt, eps, fieldNum_lit] at hn
+    have hd0 : 0 ≤ a.x * a.x + a.y * a.y + a.z * a.z := by
+      nlinarith [mul_self_nonneg a.x, mul_self_nonneg a.y, mul_self_nonneg a.z]
+    have hSS := hs.sq_mul _ hd0
+    have hS0 := hs.nonneg _ hd0
+    apply satSeparationWrtLine_lower sq he1 he2 pos12 _ h1 h2
+    simp only [V3.sdiv, V3.norm, V3.normSq, V3.dot, fieldNum_sqrt]
+    generalize sq (a.x * a.x + a.y * a.y + a.z * a.z) = S at *
+    have he : (0:K) ≤ ((mkRat 1 4503599627370496 : ℚ) : K) := by
+      have : (0:ℚ) ≤ mkRat 1 4503599627370496 := by rw [Rat.mkRat_eq_div]; positivity
+      exact_mod_cast this
+    have hSpos : 0 < S := lt_of_le_of_lt he hn
+    have hne : S ≠ 0 := ne_of_gt hSpos
+    have : a.x / S * (a.x / S) + a.y / S * (a.y / S) + a.z / S * (a.z / S) = 1 := by
+      field_simp; linarith
+    linarith
+  · exact hb
+  · exact hb
+
+/-- non-vacuity of the SAT theorems: two unit cubes three units apart along `x` (identity rotation) give the positive
+separation `1` (evaluated at the lawful instance over `ℚ`). -/
+example :
+    letI := fieldNum ℚ id
+    letI := fieldBits ℚ
+    (satCuboidCuboidOneway (⟨1, 1, 1⟩ : V3 ℚ) ⟨1, 1, 1⟩ ⟨0, 0, 0, 1, ⟨3, 0, 0⟩⟩).1 = 1 := by
+  simp only [satCuboidCuboidOneway, List.foldl, satOnewayStep, cuboidLocalSupport, copysign, ith3, V3.set, V3.get,
+    V3.zero, V3.neg, Iso3.invRot, Iso3.act, Iso3.rot, Iso3.rotQ, Iso3.qv, V3.cross, V3.smul, V3.add, fieldNum_two, realMax, fieldNum_lit]
+  norm_num
+
+/-! ## 5. segment / segment -/
+
+/-- **Clamping analysis of `closest_points_segment_segment_with_locations_nD`** (any dimension: the vector space only
+enters through the five dot products). `A = |d1|²`, `E = |d2|²`, `B = d1·d2`, `C = d1·r`, `F = d2·r`, `r = a1 - a2`.
+Assuming the Gram relations that hold for real dot products and that the three tolerance tests are *exact* on the input
+(`A ≤ ε ⇒ A = 0`, `E ≤ ε ⇒ E = 0`, and the collinearity test answers "parallel" only when `AE - B² = 0`), the returned
+parameters lie in `[0,1]²` and satisfy the variational inequality of the convex objective — hence are optimal
+(`segSegParams_optimal3`). -/
+theorem segSegParamsGen_kkt {V : Type} (sub : V → V → V) (dot : V → V → K) (a1 b1 a2 b2 : V) (A E F C B : K)
+    (eA : dot (sub b1 a1) (sub b1 a1) = A) (eE : dot (sub b2 a2) (sub b2 a2) = E)
+    (eF : dot (sub b2 a2) (sub a1 a2) = F) (eC : dot (sub b1 a1) (sub a1 a2) = C)
+    (eB : dot (sub b1 a1) (sub b2 a2) = B)
+    (_hA : 0 ≤ A) (_hE : 0 ≤ E) (hcs : B * B ≤ A * E) (hpar : A * E - B * B = 0 → B * F = C * E)
+    (hA0 : A = 0 → B = 0 ∧ C = 0) (hE0 : E = 0 → B = 0 ∧ F = 0) :
+    letI := fieldNum K sq
+    letI := fieldBits K
+    (A ≤ eps → A = 0) → (E ≤ eps → E = 0) →
+    (eps < A → eps < E → (eps < A * E - B * B ∧ ulpsEq (A * E) (B * B) = false) ∨ A * E - B * B = 0) →
+    ∀ st, st = segSegParamsGen sub dot a1 b1 a2 b2 →
+    0 ≤ st.1 ∧ st.1 ≤ 1 ∧ 0 ≤ st.2 ∧ st.2 ≤ 1 ∧
+    ∀ s' t', 0 ≤ s' → s' ≤ 1 → 0 ≤ t' → t' ≤ 1 →
+      0 ≤ (C + A * st.1 - B * st.2) * (s' - st.1) - (F + B * st.1 - E * st.2) * (t' - st.2) := by
+  intro hAe hEe hex st hst
+  have heps := eps_nonneg (K := K) sq
+  dsimp only [segSegParamsGen] at hst
+  rw [eA, eE, eF, eC, eB] at hst
+  show SegKKT A B C E F st
+  split_ifs at hst with h1 h2 h3 h4 h5 h6 h7 h8
+  · -- both segments are points
+    obtain ⟨hb, hc⟩ := hA0 (hAe h1.1)
+    obtain ⟨_, hf⟩ := hE0 (hEe h1.2)
+    subst hst
+    refine ⟨le_refl _, zero_le_one, le_refl _, zero_le_one, fun s' t' _ _ _ _ => ?_⟩
+    simp only [hAe h1.1, hEe h1.2, hb, hc, hf]; simp
+  · -- first segment is a point: 1-D problem in t
+    obtain ⟨hb, hc⟩ := hA0 (hAe h2)
+    have hEpos : 0 < E := by
+      by_contra hh; push Not at hh
+      exact h1 ⟨h2, le_trans hh heps⟩
+    have ho := opt1_clamp01 sq E (-F) hEpos
+    rw [neg_neg] at ho
+    obtain ⟨r0, r1⟩ := clamp01_range sq (F / E)
+    subst hst
+    refine ⟨le_refl _, zero_le_one, r0, r1, fun s' t' _ _ ht0 ht1 => ?_⟩
+    have hvar := opt1_var E (-F) _ t' ho ht0 ht1
+    simp only [hAe h2, hb, hc]
+    generalize @clamp01 K (fieldNum K sq) (F / E) = t at *
+    nlinarith
+  · -- second segment is a point: 1-D problem in s
+    obtain ⟨hb, hf⟩ := hE0 (hEe h3)
+    have hApos : 0 < A := lt_of_le_of_lt heps (not_le.1 h2)
+    have ho := opt1_clamp01 sq A C hApos
+    obtain ⟨r0, r1⟩ := clamp01_range sq (-C / A)
+    subst hst
+    refine ⟨r0, r1, le_refl _, zero_le_one, fun s' t' hs0 hs1 _ _ => ?_⟩
+    have hvar := opt1_var A C _ s' ho hs0 hs1
+    simp only [hEe h3, hb, hf]
+    generalize @clamp01 K (fieldNum K sq) (-C / A) = s at *
+    nlinarith
+  all_goals
+    have hApos : 0 < A := lt_of_le_of_lt heps (not_le.1 h2)
+    have hEpos : 0 < E := lt_of_le_of_lt heps (not_le.1 h3)
+  · subst hst
+    exact seg_neg sq A B C E F _ hApos hEpos hcs (stage1_nonparallel sq A B C E F (lt_of_le_of_lt heps h4.1)) h5
+  · subst hst
+    exact seg_pos sq A B C E F _ hApos hEpos hcs (stage1_nonparallel sq A B C E F (lt_of_le_of_lt heps h4.1)) h6
+  · subst hst
+    exact seg_mid A B C E F _ hEpos (stage1_nonparallel sq A B C E F (lt_of_le_of_lt heps h4.1)) h5 h6
+  all_goals
+    have hD : A * E - B * B = 0 := by
+      rcases hex (not_le.1 h2) (not_le.1 h3) with hh | hh
+      · exfalso; apply h4; refine ⟨hh.1, ?_⟩; simp [hh.2]
+      · exact hh
+    have hs1 := stage1_parallel A B C E F hD (hpar hD)
+  · subst hst
+    exact seg_neg sq A B C E F 0 hApos hEpos hcs hs1 h7
+  · subst hst
+    exact seg_pos sq A B C E F 0 hApos hEpos hcs hs1 h8
+  · subst hst
+    exact seg_mid A B C E F 0 hEpos hs1 h7 h8
 
 end C01
